@@ -39,6 +39,12 @@ class Data(Attribute):
         return isinstance(other, Data) and type(self) is type(other) and self.data == other.data
 
 
+class Use:
+    def __init__(self, operation, index=0):
+        self.operation = operation
+        self.index = index
+
+
 class SSAValue:
     def __init__(self, den=None, type=None, owner=None, name_hint=None):
         self.den = den
@@ -186,6 +192,10 @@ class Operation:
                 for o in b.ops:
                     inner.extend(o.walk(reverse, region_first))
         return inner + [self] if region_first else [self] + inner
+
+    def has_trait(self, trait):
+        """traits are ghost flags on view ops: only IsTerminator is modelled"""
+        return getattr(self, "is_terminator", False)
 
     def detach(self):
         """recorded, not performed (the rewriter stub is a recorder)"""
